@@ -16,6 +16,18 @@ Streams
                 (never from the model): expected relation, reach within the limits,
                 no dangling edge, "by" graphs are inverses, `graph: false`.
   micro   : random entity tables -> `get_call_nodes` on stub objects vs the model.
+
+Translated table (translate/c13.py -> lean/FordModel/Generated/C13.lean): the guards of the
+interface-to-implementation links of `ProcNode.__init__` as a decision table over the Python
+classes of ford.sourceform, read off the working tree by running the real constructor on stubs.
+The entity table hands the two slots (`modprocs`, `procedure.module`) to the model *unfiltered*
+together with the class row of every entity; the model applies the table.
+
+Generated interface forms: generic interfaces whose specific procedures are module procedures
+(public / private, subroutines / functions), separate module procedures and external procedures
+declared by interface bodies, in the three spellings of the procedure statement; separate module
+procedures implemented in a submodule, in the module itself or not at all, as `module subroutine`
+/ `module function` or as `module procedure name`; calls through all of these interfaces.
 """
 from __future__ import annotations
 
@@ -28,6 +40,12 @@ from . import common
 from .common import Driver, Report, lean_prove
 
 PROP = "C13"
+
+
+def translate():
+    """regenerate lean/FordModel/Generated/C13.lean (decision table of the interface links)"""
+    from translate import c13 as T
+    T.generate()
 
 # --------------------------------------------------------------------------
 # running the real code
@@ -89,11 +107,16 @@ class Table:
         self.ids: dict[str, int] = {}
         self.objs: list = []
         self.rows: list[dict] = []
+        from translate import c13 as T
+        self.class_names = T.class_names(ford)
+        self.class_index = lambda o: T.class_index(self.class_names, o)
         self.EXT = (sf.ExternalModule, sf.ExternalSubmodule, sf.ExternalType, sf.ExternalBoundProcedure,
                     sf.ExternalSubroutine, sf.ExternalFunction, sf.ExternalInterface, sf.ExternalProgram,
                     sf.ExternalSourceFile)
 
     def ident(self, obj) -> str:
+        if obj is None or obj is True or obj is False:
+            return f"<{obj}>"      # placeholder of an unmatched specific procedure / implementation
         if isinstance(obj, self.EXT):
             obj = str(obj)
         if isinstance(obj, str):
@@ -110,7 +133,7 @@ class Table:
 
     def kind(self, obj) -> str:
         G = self.G
-        if isinstance(obj, str) or isinstance(obj, self.EXT):
+        if obj is None or obj is True or obj is False or isinstance(obj, str) or isinstance(obj, self.EXT):
             return "x"
         for test, k in ((G.is_submodule, "s"), (G.is_module, "m"), (G.is_type, "t"), (G.is_proc, "p"),
                         (G.is_program, "g"), (G.is_sourcefile, "f"), (G.is_blockdata, "b")):
@@ -123,7 +146,8 @@ class Table:
         k = self.kind(obj)
         r = dict(kind=k, ptype="o", visible=True, visibleF=False, isBound=False, deferred=False, extUrl=False,
                  graph=True, uses=[], anc=None, comps=[], calls=[], bindings=[], modprocs=[], impl=None,
-                 deps=[], boundprocs=[], internals=[], maxDepth=0, maxNodes=1, name=self.ident(obj))
+                 deps=[], boundprocs=[], internals=[], maxDepth=0, maxNodes=1, name=self.ident(obj),
+                 cls=self.class_index(obj))
         if k == "x":
             return r
         r["visible"] = bool(getattr(obj, "visible", True))
@@ -161,9 +185,10 @@ class Table:
         r["calls"] = [self.eid(c) for c in getattr(obj, "calls", [])]
         r["bindings"] = [self.eid(c) for c in getattr(obj, "bindings", [])]
         if k == "p":
-            r["modprocs"] = [self.eid(m.procedure) for m in getattr(obj, "modprocs", []) if m.procedure]
-            if isinstance(obj, sf.FortranModuleProcedureInterface) and isinstance(
-                    obj.procedure.module, (str, sf.FortranProcedure)):
+            # both slots unfiltered: the guards of ProcNode.__init__ are applied by the model, through the
+            # decision table the translator reads from the working tree
+            r["modprocs"] = [self.eid(m.procedure) for m in getattr(obj, "modprocs", [])]
+            if isinstance(obj, sf.FortranModuleProcedureInterface):
                 r["impl"] = self.eid(obj.procedure.module)
             from ford.utils import traverse
             r["internals"] = [self.eid(p) for p in traverse(obj, ["subroutines", "functions"])]
@@ -188,7 +213,7 @@ class Table:
         flags = "".join("1" if r[f] else "0" for f in ("visible", "visibleF", "isBound", "deferred", "extUrl", "graph"))
         return ";".join([r["kind"], r["ptype"], flags, nl(r["uses"]), opt(r["anc"]), nl(r["comps"]), nl(r["calls"]),
                          nl(r["bindings"]), nl(r["modprocs"]), opt(r["impl"]), nl(r["deps"]), nl(r["boundprocs"]),
-                         nl(r["internals"]), str(r["maxDepth"]), str(r["maxNodes"])])
+                         nl(r["internals"]), str(r["maxDepth"]), str(r["maxNodes"]), str(r.get("cls", 0))])
 
 
 # --------------------------------------------------------------------------
@@ -397,7 +422,13 @@ class Abs:
     """Abstract project.  Everything the oracle needs is computed from this object only."""
 
     def __init__(self):
-        self.mods = []      # dict(name, uses[], types[], procs[], gifaces[], mpis[], meta)
+        self.mods = []      # dict(name, uses[], types[], procs[], gifaces[], mpis[], exts[], mpimpls[], meta)
+        #   procs / mpimpls / impls: dict(name, calls[], uses[], private, locals[], internal[], meta, fn, form)
+        #       fn: a function;  form: "unit" (subroutine / function statement) or "proc" (`module procedure name`)
+        #   mpis:  dict(name, fn, where)   separate module procedure interface, implemented in "sub"(module) /
+        #                                  "mod"(ule itself) / None (no implementation in the project)
+        #   exts:  dict(name, fn)          external procedure declared by an interface body
+        #   gifaces: [name, [[kind, specific, spelling]]]   kind: "proc" | "mpi" | "ext"
         self.subs = []      # dict(name, parent (ident name), mod, uses[], impls[], meta)
         self.progs = []     # dict(name, uses[], calls[], procs[], meta)
         self.files = {}     # file name -> [unit names]
@@ -450,7 +481,7 @@ def gen_abs(rng: random.Random, big: bool) -> Abs:
         A.show_private = True
         feat.add("display-private")
     pf = 0.1 if special else 0.0
-    tcount = pcount = bcount = gcount = icount = scount = 0
+    tcount = pcount = bcount = gcount = icount = scount = ecount = 0
     all_types = {}   # type name -> module index
     has_generic = set()
     for i in range(nm):
@@ -467,13 +498,16 @@ def gen_abs(rng: random.Random, big: bool) -> Abs:
         if rng.random() < 0.25:
             uses.append(rng.choice(["xm0", "xm1"]))
             feat.add("external-module")
-        m = dict(name=f"m{i}", uses=uses, types=[], procs=[], gifaces=[], mpis=[],
-                 meta=gen_meta(rng, feat, pf, special))
+        m = dict(name=f"m{i}", uses=uses, types=[], procs=[], gifaces=[], mpis=[], exts=[], mpimpls=[],
+                 ext_same_block=rng.random() < 0.3, meta=gen_meta(rng, feat, pf, special))
         vis_mods = [u for u in uses if u.startswith("m")]
         # procedures first (names), bodies later
         for _ in range(rng.randint(0, 4)):
             m["procs"].append(dict(name=f"p{pcount}", calls=[], uses=[], private=False, locals=[],
-                                   internal=[], meta=gen_meta(rng, feat, pf, special)))
+                                   internal=[], meta=gen_meta(rng, feat, pf, special),
+                                   fn=rng.random() < 0.15, form="unit"))
+            if m["procs"][-1]["fn"]:
+                feat.add("function")
             pcount += 1
         # types
         for _ in range(rng.randint(0, 3)):
@@ -497,7 +531,7 @@ def gen_abs(rng: random.Random, big: bool) -> Abs:
                 elif visible_types:
                     t["comps"].append((f"c{c}", rng.choice(visible_types), rng.random() < 0.3))
                     feat.add("type-component")
-            pubs = [p for p in m["procs"]]
+            pubs = [p for p in m["procs"] if not p["fn"]]   # (functions are neither bound nor called)
             if pubs and rng.random() < 0.5:
                 k = rng.randint(1, min(3, len(pubs)))
                 for p in rng.sample(pubs, k):
@@ -520,17 +554,47 @@ def gen_abs(rng: random.Random, big: bool) -> Abs:
                 p["private"] = True
                 feat.add("private-proc")
         free = [p for p in m["procs"] if not p["private"]]
-        if len(free) >= 2 and rng.random() < 0.3:
-            m["gifaces"].append((f"gi{icount}", [p["name"] for p in rng.sample(free, 2)]))
-            icount += 1
-            feat.add("generic-interface")
-        if rng.random() < 0.3:
-            m["mpis"].append(f"sp{scount}")
-            scount += 1
+        # separate module procedures (interface bodies with the MODULE prefix) ...
+        if rng.random() < 0.35:
+            for _ in range(rng.choice([1, 1, 2, 3])):
+                where = rng.choice(["sub", "sub", "sub", "mod", None])
+                m["mpis"].append(dict(name=f"sp{scount}", fn=rng.random() < 0.2, where=where))
+                feat.add({"sub": "mpi-impl-in-submodule", "mod": "mpi-impl-in-module", None: "mpi-unimplemented"}[where])
+                scount += 1
+        # ... and external procedures known through an interface body
+        if rng.random() < 0.25:
+            for _ in range(rng.choice([1, 1, 2])):
+                m["exts"].append(dict(name=f"ex{ecount}", fn=rng.random() < 0.2))
+                ecount += 1
+            feat.add("external-interface-body")
+        # generic interfaces: the specific procedures are module procedures, separate module procedures
+        # or external procedures, in every spelling of the procedure statement
+        # (a private module procedure may be a specific procedure of a public generic interface)
+        pool = [["proc", p["name"]] for p in m["procs"]] + [["mpi", x["name"]] for x in m["mpis"]] \
+            + [["ext", x["name"]] for x in m["exts"]]
+        for _ in range(rng.choice([1, 1, 2])):
+            if pool and rng.random() < 0.4:
+                specs = rng.sample(pool, rng.randint(1, min(3, len(pool))))
+                m["gifaces"].append([f"gi{icount}", [[k, n, rng.randrange(3)] for k, n in specs]])
+                icount += 1
+                feat.add("generic-interface")
+                for k, n in specs:
+                    feat.add("giface-specific-" + k)
+                    if k == "proc" and n not in [p["name"] for p in free]:
+                        feat.add("giface-specific-private")
         A.mods.append(m)
     # submodules
+    def impl_of(x):
+        form = "proc" if rng.random() < 0.35 else "unit"
+        feat.add("mpi-impl-" + ("procedure-statement" if form == "proc" else "module-subroutine"))
+        return dict(name=x["name"], calls=[], uses=[], private=True, locals=[], internal=[], meta={},
+                    fn=x["fn"], form=form)
+
     for m in A.mods:
-        if m["mpis"] or rng.random() < 0.2:
+        for x in m["mpis"]:
+            if x["where"] == "mod":
+                m["mpimpls"].append(dict(impl_of(x), private=False))
+        if any(x["where"] == "sub" for x in m["mpis"]) or rng.random() < 0.2:
             depth = rng.randint(1, 2)
             parent = m["name"]
             for d in range(depth):
@@ -543,27 +607,34 @@ def gen_abs(rng: random.Random, big: bool) -> Abs:
                 A.subs.append(s)
                 parent = s["name"]
                 feat.add("submodule" if d == 0 else "sub-submodule")
-            for sp in m["mpis"]:
-                A.subs[-1]["impls"].append(dict(name=sp, calls=[], uses=[], private=True, locals=[], internal=[],
-                                                 meta={}))
-                feat.add("module-procedure-impl")
+            for x in m["mpis"]:
+                if x["where"] == "sub":
+                    A.subs[-1]["impls"].append(impl_of(x))
+                    feat.add("module-procedure-impl")
     # programs
     for k in range(rng.choice([0, 1, 1, 2])):
         uses = [m["name"] for m in A.mods if rng.random() < 0.5]
         g = dict(name=f"prog{k}", uses=uses, calls=[], procs=[], locals=[], meta=gen_meta(rng, feat, pf, special))
         for _ in range(rng.choice([0, 0, 1, 2])):
             g["procs"].append(dict(name=f"p{pcount}", calls=[], uses=[], private=False, locals=[], internal=[],
-                                   meta=gen_meta(rng, feat, pf, special)))
+                                   meta=gen_meta(rng, feat, pf, special), fn=False, form="unit"))
             pcount += 1
             feat.add("program-internal-proc")
         A.progs.append(g)
     # call bodies
     modmap = {m["name"]: m for m in A.mods}
 
-    def callable_from(unit_mods, own):
+    def callable_from(unit_mods, own, in_sub=False):
         out = []
         for mn in unit_mods:
-            out += [("proc", p["name"]) for p in modmap[mn]["procs"] if not p["private"]]
+            out += [("proc", p["name"]) for p in modmap[mn]["procs"] if not p["private"] and not p["fn"]]
+            # generic interfaces, separate module procedures and external procedures are called through
+            # their interface (inside a submodule the name of a module procedure may denote the local
+            # implementation instead: not generated)
+            out += [("iface", gi[0]) for gi in modmap[mn]["gifaces"]]
+            out += [("iface", x["name"]) for x in modmap[mn]["exts"] if not x["fn"]]
+            if not in_sub:
+                out += [("iface", x["name"]) for x in modmap[mn]["mpis"] if not x["fn"]]
         out += [("proc", p["name"]) for p in own]
         return out
 
@@ -575,8 +646,8 @@ def gen_abs(rng: random.Random, big: bool) -> Abs:
                 out += [("tb", t["name"], g) for g, _ in t["generics"]]
         return out
 
-    def fill(p, unit_mods, own, allow_use=True):
-        cands = callable_from(unit_mods, own)
+    def fill(p, unit_mods, own, allow_use=True, in_sub=False):
+        cands = callable_from(unit_mods, own, in_sub)
         tbs = tb_targets(unit_mods)
         n = rng.choice([0, 1, 1, 2, 3])
         used_b = set()
@@ -599,6 +670,8 @@ def gen_abs(rng: random.Random, big: bool) -> Abs:
                 p["calls"].append(c)
                 if c[1] == p["name"]:
                     feat.add("recursion")
+                if c[0] == "iface":
+                    feat.add("call-to-interface")
         if allow_use and rng.random() < 0.1:
             cand = [m["name"] for m in A.mods if m["name"] not in unit_mods and m["name"] < unit_mods[0]]
             if cand:
@@ -609,9 +682,11 @@ def gen_abs(rng: random.Random, big: bool) -> Abs:
         mods_here = [m["name"]] + [u for u in m["uses"] if u.startswith("m")]
         for p in m["procs"]:
             fill(p, mods_here, [])
+        for p in m["mpimpls"]:
+            fill(p, mods_here, [], allow_use=False)
     for s in A.subs:
         for p in s["impls"]:
-            fill(p, [s["mod"]], [], allow_use=False)
+            fill(p, [s["mod"]], [], allow_use=False, in_sub=True)
     for g in A.progs:
         fill(g, g["uses"], g["procs"], allow_use=False)
         for p in g["procs"]:
@@ -636,19 +711,36 @@ def render(A: Abs) -> dict:
     submap = {s["name"]: s for s in A.subs}
     progmap = {g["name"]: g for g in A.progs}
 
+    def head_text(name, fn, ind, prefix=""):
+        """statement that opens a subroutine / function (also used for interface bodies)"""
+        if fn:
+            return f"{ind}{prefix}function {name}() result(r)\n", f"{ind}  integer :: r\n", f"{ind}end function {name}\n"
+        return f"{ind}{prefix}subroutine {name}()\n", "", f"{ind}end subroutine {name}\n"
+
+    def body_text(name, fn, ind, prefix=""):
+        a, b, c = head_text(name, fn, ind, prefix)
+        return a + b + c
+
     def proc_text(p, ind, prefix="", bound_self=None):
-        o = f"{ind}{prefix}subroutine {p['name']}()\n" + _meta_lines(p["meta"], ind + "  ")
+        fn, proc_form = p.get("fn", False), p.get("form", "unit") == "proc"
+        if proc_form:   # `module procedure name`: the characteristics come from the interface
+            head, decl, tail = f"{ind}module procedure {p['name']}\n", "", f"{ind}end procedure {p['name']}\n"
+        else:
+            head, decl, tail = head_text(p["name"], fn, ind, prefix)
+        o = head + _meta_lines(p["meta"], ind + "  ")
         for u in p["uses"]:
             o += f"{ind}  use {u}\n"
         for v, t in p["locals"]:
             o += f"{ind}  type({t}) :: {v}\n"
+        o += decl
         for c in p["calls"]:
             if c[0] == "tb":
                 o += f"{ind}  call {c[1]}%{c[2]}()\n"
             else:
                 o += f"{ind}  call {c[1]}()\n"
-        o += f"{ind}end subroutine {p['name']}\n"
-        return o
+        if fn:
+            o += f"{ind}  r = 0\n"
+        return o + tail
 
     def unit_text(name):
         if name in modmap:
@@ -672,17 +764,26 @@ def render(A: Abs) -> dict:
                     for g, bs in t["generics"]:
                         o += f"    generic :: {g} => {', '.join(bs)}\n"
                 o += f"  end type {t['name']}\n"
-            for gi, ps in m["gifaces"]:
-                o += f"  interface {gi}\n    module procedure {', '.join(ps)}\n  end interface {gi}\n"
-            if m["mpis"]:
-                o += "  interface\n"
-                for sp in m["mpis"]:
-                    o += f"    module subroutine {sp}()\n    end subroutine {sp}\n"
-                o += "  end interface\n"
-            if m["procs"]:
+            spell = ["module procedure ", "procedure :: ", "procedure "]
+            for gi, specs in m["gifaces"]:
+                o += f"  interface {gi}\n"
+                for _, n, sp in specs:
+                    o += f"    {spell[sp]}{n}\n"
+                o += f"  end interface {gi}\n"
+            mpi_txt = "".join(body_text(x["name"], x["fn"], "    ", "module ") for x in m["mpis"])
+            ext_txt = "".join(body_text(x["name"], x["fn"], "    ") for x in m.get("exts", []))
+            if m.get("ext_same_block") and mpi_txt and ext_txt:
+                o += "  interface\n" + mpi_txt + ext_txt + "  end interface\n"
+            else:
+                for txt in (mpi_txt, ext_txt):
+                    if txt:
+                        o += "  interface\n" + txt + "  end interface\n"
+            if m["procs"] or m.get("mpimpls"):
                 o += "contains\n"
                 for p in m["procs"]:
                     o += proc_text(p, "  ")
+                for p in m.get("mpimpls", []):
+                    o += proc_text(p, "  ", "module ")
             return o + f"end module {name}\n"
         if name in submap:
             s = submap[name]
@@ -719,9 +820,13 @@ def render(A: Abs) -> dict:
 
 
 class Spec:
-    """idents and relations.  Edges are (tail, head, style)."""
+    """idents and relations.  Edges are (tail, head, style).
 
-    def __init__(self, A: Abs):
+    `drop_proc_form_impl` gives the relation of finding C13-modproc-impl-no-edge (used only to
+    classify a failing input): the interface-to-implementation edge of a separate module
+    procedure is left out when its implementation is written `module procedure name`."""
+
+    def __init__(self, A: Abs, drop_proc_form_impl=False):
         self.A = A
         self.graph_false = set()
         self.limits = {}       # ident -> (maxdepth, maxnodes)
@@ -756,7 +861,7 @@ class Spec:
             mi = f"module~{m['name']}"
             reg(mi, "m", m["meta"])
             self.uses[mi] = [(mod_ident(u), "d") for u in m["uses"]]
-            for p in m["procs"]:
+            for p in m["procs"] + m.get("mpimpls", []):
                 procs[p["name"]] = (p, f"proc~{p['name']}")
             for t in m["types"]:
                 types[t["name"]] = t
@@ -801,6 +906,8 @@ class Spec:
         def resolve(target, locals_, seen):
             if target[0] == "ext":
                 return [target[1]]
+            if target[0] == "iface":   # generic interface / interface body: always documented
+                return [f"interface~{target[1]}"]
             if target[0] == "tb":
                 kind = binds[target[2]]
                 if kind[0] == "simple":
@@ -840,15 +947,36 @@ class Spec:
                         if x not in out:
                             out.append(x)
                 self.calls[gi] = [(x, "d") for x in out]
+        # interface-to-implementation: a generic interface -> each of its specific procedures (a module
+        # procedure, or the interface body that declares a separate module procedure / an external
+        # procedure); the interface of a separate module procedure -> its implementation, if the
+        # project has one and it is documented
+        self.proc_form_impl_edges = []
         for m in A.mods:
-            for gi, ps in m["gifaces"]:
+            for gi, specs in m["gifaces"]:
                 ii = f"interface~{gi}"
                 reg(ii, "i", {})
-                self.calls[ii] = [(f"proc~{p}", "d") for p in ps]
-            for sp in m["mpis"]:
+                out = []
+                for k, n, _ in specs:
+                    x = f"proc~{n}" if k == "proc" else f"interface~{n}"
+                    if (k != "proc" or self.visible.get(x)) and (x, "d") not in out:
+                        out.append((x, "d"))
+                self.calls[ii] = out
+            for x in m["mpis"]:
+                sp = x["name"]
                 ii = f"interface~{sp}"
                 reg(ii, "i", {})
-                self.calls[ii] = [(f"proc~{sp}", "d")] if self.visible.get(f"proc~{sp}") else []
+                self.calls[ii] = []
+                if x["where"] and self.visible.get(f"proc~{sp}"):
+                    if procs[sp][0].get("form") == "proc":
+                        self.proc_form_impl_edges.append((ii, f"proc~{sp}"))
+                        if drop_proc_form_impl:
+                            continue
+                    self.calls[ii] = [(f"proc~{sp}", "d")]
+            for x in m.get("exts", []):
+                ii = f"interface~{x['name']}"
+                reg(ii, "i", {})
+                self.calls[ii] = []
         # file dependencies: unit-level USE of a project module and submodule parents
         for f, us in A.files.items():
             fi = f"sourcefile~{f}"
@@ -989,10 +1117,63 @@ def norm_edges(S: Spec, cls: str, edges):
     return sorted(out)
 
 
+def judge_project(S: Spec, cls: str, nodes: set, edges):
+    """project-wide graph of class `cls` against the relation of `S` -> (holds, finding id | None, text)"""
+    succ = S.succ(cls)
+    gf = S.graph_false
+    roots = project_roots(S, cls)
+    maxn = max([1] + [S.limits[r][1] for r in roots if r in S.limits])
+    clean = lambda n: [(c, e) for c, e in succ(n) if c not in gf]  # noqa
+    exp = expected_graph(clean, roots, 1, maxn, False)
+    exp_edges = norm_edges(S, cls, exp[1])
+    got = (nodes, norm_edges(S, cls, edges))
+    if got == (exp[0], exp_edges):
+        return True, None, ""
+    fid = None
+    asis = expected_graph(succ, roots, 1, maxn, False)
+    if gf and got == (asis[0], norm_edges(S, cls, asis[1])):
+        fid = "C13-graph-false-dependency"
+    elif cls == "call":
+        hop = [c for r in roots for c, _ in succ(r)]
+        if got == (set(roots), []) and len(set(hop)) + len(set(roots)) > maxn >= len(set(hop) | set(roots)):
+            fid = "C13-callgraph-counts-roots-twice"
+    return False, fid, (f"project-wide {cls} graph: nodes +{sorted(nodes - exp[0])} -{sorted(exp[0] - nodes)}; "
+                        f"edges +{sorted(set(got[1]) - set(exp_edges))} -{sorted(set(exp_edges) - set(got[1]))}")
+
+
+def judge_entity(S: Spec, root: str, cls: str, nodes: set, edges, cache: dict):
+    """per-entity graph against the relation of `S` -> (holds, finding id | None, text)"""
+    d, n = S.limits[root]
+    succ = S.succ(cls)
+    exp = expected_graph(succ, [root], d, n, True)
+    exp_edges = norm_edges(S, cls, exp[1])
+    got = (nodes, norm_edges(S, cls, edges))
+    if got == (exp[0], exp_edges):
+        return True, None, ""
+    fid = None
+    if cls in ("usedby", "inheritedby", "calledby", "afferent"):
+        if "eager" not in cache:
+            cache["eager"] = eager_nodes(S)
+        eager = cache["eager"]
+        lazy = lambda m: [(c, e) for c, e in succ(m) if c in eager]  # noqa
+        asis = expected_graph(lazy, [root], d, n, True)
+        if got == (asis[0], norm_edges(S, cls, asis[1])):
+            fid = "C13-by-graph-misses-unregistered"
+    return False, fid, (f"{cls} graph of {root} (maxdepth {d}, maxnodes {n}): nodes +{sorted(nodes - exp[0])} "
+                        f"-{sorted(exp[0] - nodes)}; edges +{sorted(set(got[1]) - set(exp_edges))} "
+                        f"-{sorted(set(exp_edges) - set(got[1]))}")
+
+
+MODPROC_IMPL = "C13-modproc-impl-no-edge"
+
+
 def oracle(A: Abs, S: Spec, obs: dict):
-    """-> list of (label, why, finding id or None)"""
+    """-> list of (label, why, finding id | tuple of finding ids | None).  A tuple means: the observed
+    graph is the documented one only after *all* of these listed defects are taken into account."""
     fails = []
     labels = set(obs)
+    # the relation of finding C13-modproc-impl-no-edge, only consulted to classify a failure
+    S2 = Spec(A, drop_proc_form_impl=True) if S.proc_form_impl_edges else None
     # graph: false removes the entity's own graphs; everything else has its graphs
     for ident, kind in S.kind.items():
         for cls in CLASSES_OF_KIND.get(kind, []):
@@ -1001,7 +1182,7 @@ def oracle(A: Abs, S: Spec, obs: dict):
                 fails.append((f"{ident}:{cls}", "entity with graph: false has a graph", None))
             if ident not in S.graph_false and not has:
                 fails.append((f"{ident}:{cls}", "documented entity has no graph object", None))
-    eager = None
+    cache, cache2 = {}, {}
     for label, o in sorted(obs.items()):
         root, cls = label.rsplit(":", 1)
         # no dangling edge
@@ -1012,46 +1193,23 @@ def oracle(A: Abs, S: Spec, obs: dict):
                 break
         if set(o["added"]) != nodes:
             fails.append((label, "graph.added differs from the nodes drawn", None))
-        if root == "proj":
-            succ = S.succ(cls)
-            gf = S.graph_false
-            roots = project_roots(S, cls)
-            maxn = max([1] + [S.limits[r][1] for r in roots if r in S.limits])
-            clean = lambda n: [(c, e) for c, e in succ(n) if c not in gf]  # noqa
-            exp = expected_graph(clean, roots, 1, maxn, False)
-            got = (nodes, norm_edges(S, cls, o["edges"]))
-            if got != (exp[0], norm_edges(S, cls, exp[1])):
-                fid = None
-                asis = expected_graph(succ, roots, 1, maxn, False)
-                if gf and got == (asis[0], norm_edges(S, cls, asis[1])):
-                    fid = "C13-graph-false-dependency"
-                elif cls == "call":
-                    hop = [c for r in roots for c, _ in succ(r)]
-                    if got == (set(roots), []) and len(set(hop)) + len(set(roots)) > maxn >= len(set(hop) | set(roots)):
-                        fid = "C13-callgraph-counts-roots-twice"
-                fails.append((label, f"project-wide {cls} graph: nodes +{sorted(nodes - exp[0])} -{sorted(exp[0] - nodes)}; "
-                                     f"edges +{sorted(set(got[1]) - set(norm_edges(S, cls, exp[1])))} "
-                                     f"-{sorted(set(norm_edges(S, cls, exp[1])) - set(got[1]))}", fid))
-            continue
-        if root not in S.limits:
+        if root != "proj" and root not in S.limits:
             fails.append((label, "graph for an entity the generator does not know", None))
             continue
-        d, n = S.limits[root]
-        succ = S.succ(cls)
-        exp = expected_graph(succ, [root], d, n, True)
-        got = (nodes, norm_edges(S, cls, o["edges"]))
-        if got != (exp[0], norm_edges(S, cls, exp[1])):
-            fid = None
-            if cls in ("usedby", "inheritedby", "calledby", "afferent"):
-                if eager is None:
-                    eager = eager_nodes(S)
-                lazy = lambda m: [(c, e) for c, e in succ(m) if c in eager]  # noqa
-                asis = expected_graph(lazy, [root], d, n, True)
-                if got == (asis[0], norm_edges(S, cls, asis[1])):
-                    fid = "C13-by-graph-misses-unregistered"
-            fails.append((label, f"{cls} graph of {root} (maxdepth {d}, maxnodes {n}): nodes +{sorted(nodes - exp[0])} "
-                                 f"-{sorted(exp[0] - nodes)}; edges +{sorted(set(got[1]) - set(norm_edges(S, cls, exp[1])))} "
-                                 f"-{sorted(set(norm_edges(S, cls, exp[1])) - set(got[1]))}", fid))
+        if root == "proj":
+            judge = lambda X, c: judge_project(X, cls, nodes, o["edges"])  # noqa
+        else:
+            judge = lambda X, c: judge_entity(X, root, cls, nodes, o["edges"], c)  # noqa
+        ok, fid, why = judge(S, cache)
+        if ok:
+            continue
+        if fid is None and S2 is not None:
+            ok2, fid2, _ = judge(S2, cache2)
+            if ok2:
+                fid = MODPROC_IMPL
+            elif fid2 is not None:
+                fid = (MODPROC_IMPL, fid2)
+        fails.append((label, why, fid))
     # "by" graphs are the inverses of their counterparts (first hop, both drawn, none refused)
     for fcls, bcls in INVERSE_PAIRS:
         F = {l.rsplit(":", 1)[0]: o for l, o in obs.items() if l.endswith(":" + fcls)}
@@ -1155,6 +1313,10 @@ WITNESSES = {
     "C13-callgraph-counts-roots-twice": (
         {"a.f90": "module m0\ncontains\n  subroutine p0()\n    call p1()\n  end subroutine p0\n"
                   "  subroutine p1()\n    call p0()\n  end subroutine p1\nend module m0\n"}, {"graph_maxnodes": 3}),
+    "C13-modproc-impl-no-edge": (
+        {"a.f90": "module m0\n  implicit none\n  interface\n    module subroutine sp0()\n    end subroutine sp0\n"
+                  "  end interface\nend module m0\n\nsubmodule (m0) s0\ncontains\n  module procedure sp0\n"
+                  "  end procedure sp0\nend submodule s0\n"}, {"display": ["public", "protected", "private"]}),
 }
 
 
@@ -1168,10 +1330,16 @@ def witness_abs(fid: str) -> Abs:
         A.mods = [mk("m0", meta={"graph": "false"}), mk("m1", ["m0"])]
     elif fid == "C13-by-graph-misses-unregistered":
         A.mods = [mk("m0"), mk("m1", ["m0"], {"graph": "false"})]
+    elif fid == "C13-modproc-impl-no-edge":
+        A.mods = [dict(mk("m0"), mpis=[dict(name="sp0", fn=False, where="sub")])]
+        A.subs = [dict(name="s0", parent="m0", mod="m0", uses=[], meta={},
+                       impls=[dict(pr("sp0", []), private=True, fn=False, form="proc")])]
+        A.opts = {"display": ["public", "protected", "private"]}
+        A.show_private = True
     else:
         A.mods = [mk("m0", procs=[pr("p0", ["p1"]), pr("p1", ["p0"])])]
         A.opts = {"graph_maxnodes": 3}
-    A.files = {"a.f90": [m["name"] for m in A.mods]}
+    A.files = {"a.f90": [m["name"] for m in A.mods] + [x["name"] for x in A.subs]}
     A.features.add("witness")
     return A
 
@@ -1228,7 +1396,7 @@ def run(tier: str, seed: int, replay: str | None = None) -> int:
     import json
 
     rep = Report(PROP, tier, seed)
-    lean = lean_prove(PROP, thorough=(tier == "thorough"))
+    lean = lean_prove(PROP, translate=translate, thorough=(tier == "thorough"))
     for b in lean.broken():
         rep.tie_broken("proof: " + b)
     ford = common.import_ford()
@@ -1300,7 +1468,12 @@ def run(tier: str, seed: int, replay: str | None = None) -> int:
                                    dict(case, differences=res["corr"][:5]))
                 for label, why, fid in res["fails"]:
                     n_oracle += 1
-                    rep.failing_input(dict(case, graph=label, why=why), fid)
+                    fids = list(fid) if isinstance(fid, tuple) else [fid]
+                    unlisted = [f for f in fids if f is not None and f not in rep.known]
+                    if len(fids) > 1 and unlisted:
+                        fids = unlisted[:1]      # a combination is excused only if every part is listed
+                    for f in fids:
+                        rep.failing_input(dict(case, graph=label, why=why, classes=[x for x in fids if x]), f)
     finally:
         graphviz.Digraph.pipe = real_pipe
     rep.coverage.update(
@@ -1323,6 +1496,8 @@ def run(tier: str, seed: int, replay: str | None = None) -> int:
         "Fortran parsing / correlate (C01, C06-C08) are on the implementation side: the model starts from the entity "
         "attributes the node constructors read (uses, calls, bindings, extends, component prototypes, deplist, meta)",
         "iteration order inside a hop, colours, labels, URLs, SVG layout and the HTML table fallback are not compared",
+        "interface bodies written inside a generic interface block have no page of their own and are not expected as "
+        "nodes; a specific procedure that is hidden (private, display without private) is expected to have no edge",
         "graph_maxdepth: 0 is read as one hop (the code always expands the roots once)",
         "a program unit is a root of a project-wide graph when its own graph shows more than itself (the code's rule)",
     ]
